@@ -327,6 +327,19 @@ def check(run):
                                               f"({cores[0][:50]}...): only an emptiness test may decide the answer without looking at the edges",
                               key=key_of("C05-R6", spec, val[:40]))
     run.floor("returns of topological queries examined", n6, 24)
+    # graph.neighbors: a neighbour is listed once however often the pair occurs (self-edges from repeated in-face indices included)
+    fn = ix.func("trimesh.graph:neighbors")
+    pn = Prov(ix, fn)
+    defs = [st for st in ast.walk(fn.node) if isinstance(st, ast.Assign) and isinstance(st.targets[0], ast.Name) and st.targets[0].id == "neighbors"]
+    txts = [pn.canon(st.value, st) for st in defs]
+    adds = {c.func.attr for c in ast.walk(fn.node) if isinstance(c, ast.Call) and isinstance(c.func, ast.Attribute) and isinstance(c.func.value, ast.Subscript)
+            and ast.unparse(c.func.value.value) == "neighbors"}
+    dedup_later = any(isinstance(c, ast.Call) and ast.unparse(c.func) in ("set", "np.unique", "sorted(set") and "neighbors" in ast.unparse(c) for c in ast.walk(fn.node))
+    ok = (txts == ["collections.defaultdict(set)"] and adds <= {"add", "update", "discard"}) or dedup_later
+    run.instance("R6", fn.where, f"graph.neighbors collects neighbours in sets ({txts}, methods {sorted(adds)})", ok)
+    if not ok:
+        run.violation("R6", fn.where, f"graph.neighbors collects neighbours with {txts} / {sorted(adds)} and no later de-duplication: a vertex is listed more than once when an "
+                                      f"edge repeats or a face repeats an index (self-edge), so vertex_neighbors differs from direct counting", key=key_of("C05-R6", "neighbors-set"))
     # graph.split: components are computed on face adjacency over all faces
     sp = ix.func("trimesh.graph:split")
     ps = Prov(ix, sp)
